@@ -49,7 +49,7 @@ def cases(tier, seed):
                 for bc in ("periodic", "neumann"):
                     for side in ("below", "above"):
                         out.append({"kind": "gmrf_cfg", "N": N, "bc": bc, "order": 1, "pd": pd, "side": side})
-            for bc in ("zero", "periodic", "neumann"):
+            for bc in S.BCS1:   # LMRF/CMRF accept all five first-order boundary conditions
                 # variant 0/1: vector location (zero / random); 2: scalar location, also evaluated on a batch of columns
                 for variant in range(3):
                     out.append({"kind": "lmrf", "N": N, "bc": bc, "pd": pd, "variant": variant})
@@ -59,7 +59,7 @@ def cases(tier, seed):
     big1, big2 = ((64, 256, 600), (10, 16)) if tier == "quick" else ((64, 150, 256, 400, 600, 1000), (10, 16, 24, 32))
     for pd, sizes in ((1, big1), (2, big2)):
         for N in sizes:
-            for bc in ("zero", "periodic", "neumann"):
+            for bc in S.BCS1:
                 for si in range(len(EXTREME_SCALES)):
                     out.append({"kind": "lmrf", "N": N, "bc": bc, "pd": pd, "variant": 3, "scale_idx": si})
                     out.append({"kind": "cmrf", "N": N, "bc": bc, "pd": pd, "variant": 3, "scale_idx": si})
